@@ -281,21 +281,33 @@ def block_summaries(fi, stmts, is_sink):
     return path_summaries(_Stub(fn, fi))
 
 
-def positional_term(fi, name, tm):
+def positional_term(fi, name, tm, anonymous=False, within=None):
     """If the plain local `name` is bound by a for-loop target to the element at a known position of a sequence, the term
     ("s", <sequence term>, <index term>) of that element, else None.  Understood loop headers:
         for i, x in enumerate(X)                        x -> X[i]
         for i, (l, r) in enumerate(zip(A[:-1], A[1:]))  l -> A[i], r -> A[i + 1]      (slices with constant start)
-        for i, (a, b) in enumerate(zip(A, B))           a -> A[i], b -> B[i]"""
+        for i, (a, b) in enumerate(zip(A, B))           a -> A[i], b -> B[i]
+    with anonymous=True also loops without an index variable, the position being the opaque name `$pos<line of the loop>`:
+        for a, b in zip(A, B)                           a -> A[$pos], b -> B[$pos]
+        for x in X                                      x -> X[$pos]"""
     for loop in ast.walk(fi.node):
         if not isinstance(loop, ast.For):
             continue
-        tg, it = loop.target, loop.iter
-        if not (isinstance(tg, ast.Tuple) and len(tg.elts) == 2 and isinstance(tg.elts[0], ast.Name) and isinstance(it, ast.Call)
-                and isinstance(it.func, ast.Name) and it.func.id == "enumerate" and len(it.args) == 1):
+        if within is not None and not any(loop is w for w in within):
             continue
-        idx = ("n", tg.elts[0].id)
-        inner_t, inner_it = tg.elts[1], it.args[0]
+        tg, it = loop.target, loop.iter
+        if isinstance(tg, ast.Tuple) and len(tg.elts) == 2 and isinstance(tg.elts[0], ast.Name) and isinstance(it, ast.Call) \
+                and isinstance(it.func, ast.Name) and it.func.id == "enumerate" and len(it.args) == 1:
+            idx = ("n", tg.elts[0].id)
+            inner_t, inner_it = tg.elts[1], it.args[0]
+        elif anonymous and isinstance(it, ast.Call) and isinstance(it.func, ast.Name) and it.func.id == "zip" and isinstance(tg, ast.Tuple):
+            idx = ("n", "$pos%d" % loop.lineno)          # no index variable: the (anonymous) position of this loop
+            inner_t, inner_it = tg, it
+        elif anonymous and isinstance(tg, ast.Name) and not (isinstance(it, ast.Call) and isinstance(it.func, ast.Name) and it.func.id in ("range", "enumerate", "zip")):
+            idx = ("n", "$pos%d" % loop.lineno)
+            inner_t, inner_it = tg, it
+        else:
+            continue
 
         def at(seq_ast, index_term):
             # X[c:] [i] == X[i + c];  X[:-k][i] == X[i]
@@ -771,3 +783,44 @@ def parameter_aliases_root(fi, e, alias):
                 return parameter_aliases_root(fi, e.func.value, alias)
             return parameter_aliases_root(fi, e.args[0], alias) if e.args else None
     return None
+
+
+
+def normalise_positions(fi, t, at_cfg_node, tm, depth=4, resolve=True):
+    """A term in which (1) single-definition locals are looked through, (2) loop elements are written as the indexed sequence
+    (`for j, f in enumerate(F)`: f -> F[j]; `for a, b in zip(A, B)`: a -> A[$pos], b -> B[$pos]) and (3) indexing a comprehension over
+    range(n) at position k gives the comprehension's element expression for k.  So `matrix[i, j] = f(c)` with f, c taken from
+    precomputed lists and `matrix[i, j] = basis(d, j)(coords(d)[i])` are the same term."""
+    def subst(x, a, b):
+        if x == a:
+            return b
+        if isinstance(x, tuple):
+            return tuple(subst(y, a, b) for y in x)
+        return x
+
+    encl = None
+    if at_cfg_node is not None and getattr(at_cfg_node, "ast", None) is not None:
+        anc = at_cfg_node.ast if isinstance(at_cfg_node.ast, ast.stmt) else stmt_of(at_cfg_node.ast)
+        encl = [l for l in enclosing_loops(anc)] if anc is not None else None
+        if isinstance(anc, ast.For):
+            encl = (encl or []) + [anc]
+
+    def rec(x, d_):
+        if d_ <= 0 or not isinstance(x, tuple):
+            return x
+        if len(x) == 2 and x[0] == "n" and isinstance(x[1], str) and not x[1].startswith("$"):
+            p = positional_term(fi, x[1], tm, anonymous=True, within=encl)
+            if p is not None:
+                return rec(p, d_ - 1)
+            if resolve:
+                r = resolve_locals(fi, x, at_cfg_node, tm, depth=1)
+                if r != x:
+                    return rec(r, d_ - 1)
+            return x
+        y = tuple(rec(z, d_) for z in x)
+        if len(y) == 3 and y[0] == "s" and isinstance(y[1], tuple) and y[1] and y[1][0] == "comp" and len(y[1][3]) == 1 and not y[1][3][0][2]:
+            gen = y[1][3][0]
+            if gen[1][0] == "call" and gen[1][1] == ("n", "range") and len(gen[1][2]) == 1 and gen[0] == ("bv", "$0"):
+                return rec(subst(y[1][2], ("bv", "$0"), y[2]), d_ - 1)
+        return y
+    return rec(t, depth)
